@@ -114,6 +114,29 @@ fn child(args: &Args, lname: &str) {
             }
         }
     }
+    // the safe kernel entry point with an output slice that is too short: it may refuse (panic) or
+    // do less, but it must not write past the slice (upstream's wrappers assert the bounds for exactly
+    // this reason); the slice ends at an inaccessible page, so a write beyond it faults
+    let platform = blake3::platform::Platform::detect();
+    let key = [0x01234567u32; 8];
+    for &n in &[1usize, 2, 3, 4, 5, 8, 9, 15, 16, 17, 31] {
+        for &missing in &[1usize, 32, 33, 32 * n] {
+            let olen = (32 * n).saturating_sub(missing);
+            idx += 1;
+            if idx <= start {
+                continue;
+            }
+            announce(&format!("{{\"level\":\"{}\",\"op\":\"Platform::hash_many with a short out\",\"guard\":\"right\",\"len\":{},\"num_inputs\":{},\"index\":{}}}", lname, olen, n, idx));
+            let blocks: Vec<[u8; 1024]> = (0..n).map(|i| { let mut b = [0u8; 1024]; b.copy_from_slice(&data[i * 1024..(i + 1) * 1024]); b }).collect();
+            let inputs: Vec<&[u8; 1024]> = blocks.iter().collect();
+            let mut out = Guarded::new(olen, true);
+            rep.inc("evaluations");
+            rep.inc("distinct_nontrivial");
+            rep.inc("guarded_calls");
+            rep.inc("short_out_calls");
+            let _ = vcommon::catch(|| platform.hash_many(&inputs, &key, 0, blake3::IncrementCounter::Yes, 0, 1, 2, out.slice_mut()));
+        }
+    }
     announce("done");
     rep.write(&args.report);
 }
@@ -165,7 +188,7 @@ pub fn run(args: &Args, rep: &mut Report) {
         let _ = std::fs::remove_file(format!("{}.apiguard.{}.cur", args.report, lname));
     }
     rep.configs.push(subject::config_json());
-    rep.rule = "the crate's one-shot functions, Hasher::update (two pieces) and OutputReader::fill at three positions (one across block counter 2^32) with the input and the exact-size output buffer flush against a PROT_NONE page, once on the right and once on the left, for every input length 0..=300 and k*1024+d (k <= 40 quick / 160 thorough), at every forced SIMD level, in one child process per level; results also compared with the spec; non-trivial = distinct (level, side, length)".into();
+    rep.rule = "the crate's one-shot functions, Hasher::update (two pieces) and OutputReader::fill at three positions (one across block counter 2^32) with the input and the exact-size output buffer flush against a PROT_NONE page, once on the right and once on the left, for every input length 0..=300 and k*1024+d (k <= 40 quick / 160 thorough), at every forced SIMD level, in one child process per level; results also compared with the spec; plus the safe Platform::hash_many given an output slice 1 byte .. all slots too short (it may panic, it must not write past the slice); non-trivial = distinct (level, side, length)".into();
     rep.sample(json!({"level": "avx512", "guard": "right", "len": 17 * 1024 + 1, "ops": ["hash(input)", "update(input[..n/3])", "update(input[n/3..])", "finalize_xof().fill(out) at 0, 63, 64*(2^32-9)"]}));
 }
 
